@@ -3,7 +3,7 @@ import copy
 import math
 import random
 
-from harness import apalache, core, tlc, tracecheck
+from harness import apalache, tlaps, core, tlc, tracecheck
 
 PID = "C11"
 
@@ -61,6 +61,8 @@ def run(tier, seed):
         if rr.status != "ok":
             raise tlc.TLCError("SWInd(%s) violates %s" % (cfg, rr.violated))
         ctx.add_tlc("MC_SWIndTLC_%s: StepIsTrackers%s" % (cfg, "" if cfg == "bug" else " IndInv WindowIsLastK"), rr)
+    tlaps.prove(ctx, "SWIndProof", "ring buffer: Init => Inv, Inv /\\ [Next]_vars => Inv', Inv => WindowIsLastK for every window length "
+                "K >= 1 and every number of updates")
     apalache.inductive(ctx, "MC_SWInd", "CInitOK", "IndInit", "IndInv", "WindowIsLastK", "ring buffer, K in 1..6",
                        negative_cinit="CInitBug")
     # direction A: every (k, n) of the specification driven through the real class
